@@ -1,12 +1,18 @@
 import Sop.Lemmas.Commit
 import Sop.Lemmas.CommitWitness
+import Sop.Lemmas.CommitOrphansPhase2
+import Sop.Lemmas.CommitOrphansLogs
 /-!
 # C11 — finished transactions leave no orphaned blobs, registry entries or logs
 
 On Model P: after a transaction has finished (committed + cleaned up, or failed + rolled back), every blob and
 registry entry it created is either referenced by the committed state or gone, and its log files are gone. The
 full statement is false for failed commits (findings C11-F1/F2: the step in which the fault hit is not undone);
-it is shown for the fault-free witness commit and refuted by two witnesses.
+it is refuted by two witnesses. For SUCCESSFUL FAULT-FREE commits the property is a theorem for every write set and
+starting state (`C11_ok_leaves_nothing`; parts: `C11_ok_no_orphans`, `…_values`, `…_gen`, `C11_ok_cleanup_complete`,
+`C11_ok_no_logs`): after the cleanup every blob in the store is some registered handle's active blob (or a live value
+blob), the removed nodes are unregistered, the obsolete value blobs and both log files are gone. A fault that hits a cleanup call leaves the old blob behind
+(`C11_cleanup_fault_leaves_orphan`): the cleanup's errors are swallowed and nothing retries it.
 -/
 namespace Sop.C11
 open Sop.Commit
@@ -55,6 +61,171 @@ theorem commit_leaves_no_orphans :
 theorem failed_before_leaves_no_orphans :
     let r := commit Witness.wSplit 30 { s := Witness.s0, tid := 1, fault := some ⟨.regAdd, 1, .failBefore⟩, fresh := [(1, 9)] }
     r.1 = .err ∧ r.2.s.reg 2 = none ∧ r.2.s.blob 2 = false ∧ r.2.s.blob 9 = false ∧ r.2.s.tlog 1 = false := by
+  refine ⟨?_, ?_, ?_, ?_, ?_⟩ <;> decide +kernel
+
+/-! ## The success half: a fault-free commit leaves no orphaned blob (general theorems) -/
+
+/-- **C11 (success, blobs).** Start: every blob is the active blob of a registered handle (`NoOrphan s0`). Write set
+without separate-segment value blobs, `Pre` / `Pre2` (well-formed registry and write set, physical ids not shared, the
+generated ids are new). If `Commit` returns ok in a run with no injected fault and no observer, then in the final
+state — after the cleanup — every blob is again the active blob of a registered handle: the staged blobs became
+active, the old blobs of updated nodes and the blobs of removed nodes were deleted, the removed nodes' handles
+were unregistered only after their blobs were gone. For every write set, state, transaction id, retry cap. -/
+theorem C11_ok_no_orphans {s0 : State} {w : WS} {fresh0 : List (UUID × UUID)}
+    (pre : Pre s0 w fresh0) (pre2 : Pre2 s0 w fresh0) (hv : w.values = []) (h0 : NoOrphan s0)
+    (tid : Tid) (n : Nat) (r2 : Run)
+    (hok : commit w n { s := s0, tid := tid, fault := none, fresh := fresh0 } = (.ok, r2)) :
+    NoOrphan r2.s :=
+  commit_ok_no_orphans pre pre2 hv h0 tid n r2 hok
+
+/-- **… with separate-segment value blobs**: relative to a set `V` of live value blobs, the live set after the
+commit is `V` plus the value blobs written, minus the ones the write set made obsolete (those are deleted). -/
+theorem C11_ok_no_orphans_values {s0 : State} {w : WS} {fresh0 : List (UUID × UUID)}
+    (pre : Pre s0 w fresh0) (pre2 : Pre2 s0 w fresh0) (V : List UUID) (h0 : NoOrphanV V s0)
+    (tid : Tid) (n : Nat) (r2 : Run)
+    (hok : commit w n { s := s0, tid := tid, fault := none, fresh := fresh0 } = (.ok, r2)) :
+    NoOrphanV ((V ++ w.values).filter (fun b => !w.obsoleteValues.contains b)) r2.s :=
+  commit_ok_no_orphans_values pre pre2 V h0 tid n r2 hok
+
+/-- the two facts behind it: exceptions only grow by the written value blobs, and every obsolete blob is gone -/
+theorem C11_ok_no_orphans_gen {s0 : State} {w : WS} {fresh0 : List (UUID × UUID)}
+    (pre : Pre s0 w fresh0) (pre2 : Pre2 s0 w fresh0) (X0 : List UUID) (h0 : BI X0 s0)
+    (tid : Tid) (n : Nat) (r2 : Run)
+    (hok : commit w n { s := s0, tid := tid, fault := none, fresh := fresh0 } = (.ok, r2)) :
+    BI (X0 ++ w.values) r2.s ∧ ∀ b ∈ w.obsoleteValues, r2.s.blob b = false :=
+  commit_ok_no_orphans_gen pre pre2 X0 h0 tid n r2 hok
+
+/-- **… and the registry half of the cleanup**: besides the two blob facts, no node the write set removed is
+registered any more (their handles are unregistered after their blobs were deleted). -/
+theorem C11_ok_cleanup_complete {s0 : State} {w : WS} {fresh0 : List (UUID × UUID)}
+    (pre : Pre s0 w fresh0) (pre2 : Pre2 s0 w fresh0) (X0 : List UUID) (h0 : BI X0 s0)
+    (tid : Tid) (n : Nat) (r2 : Run)
+    (hok : commit w n { s := s0, tid := tid, fault := none, fresh := fresh0 } = (.ok, r2)) :
+    BI (X0 ++ w.values) r2.s ∧ (∀ b ∈ w.obsoleteValues, r2.s.blob b = false) ∧
+      (w.hasTracked = true → ∀ i ∈ w.removed.map (·.1), r2.s.reg i = none) :=
+  commit_ok_cleanup_complete pre pre2 X0 h0 tid n r2 hok
+
+/-- **C11 (success, logs).** A commit that returns ok in a fault-free run leaves neither its transaction-log file
+(the cleanup's last call removes it) nor its priority-log file (written only when there is something to flip, removed
+right after the flip) — for every write set and state in which the transaction had no priority log to begin with. -/
+theorem C11_ok_no_logs {s0 : State} {w : WS} {fresh0 : List (UUID × UUID)} (tid : Tid) (n : Nat) (r2 : Run)
+    (hp0 : s0.plog tid = false)
+    (hok : commit w n { s := s0, tid := tid, fault := none, fresh := fresh0 } = (.ok, r2)) :
+    r2.s.tlog tid = false ∧ r2.s.plog tid = false :=
+  commit_ok_no_logs tid n r2 hp0 hok
+
+/-- **C11 for successful fault-free commits, all parts together** (write sets without separate-segment values):
+no orphaned blob, no registry entry of a removed node, no obsolete blob, no log file. -/
+theorem C11_ok_leaves_nothing {s0 : State} {w : WS} {fresh0 : List (UUID × UUID)}
+    (pre : Pre s0 w fresh0) (pre2 : Pre2 s0 w fresh0) (hv : w.values = []) (h0 : NoOrphan s0)
+    (tid : Tid) (n : Nat) (r2 : Run) (hp0 : s0.plog tid = false)
+    (hok : commit w n { s := s0, tid := tid, fault := none, fresh := fresh0 } = (.ok, r2)) :
+    NoOrphan r2.s ∧ (w.hasTracked = true → ∀ i ∈ w.removed.map (·.1), r2.s.reg i = none) ∧
+      (∀ b ∈ w.obsoleteValues, r2.s.blob b = false) ∧ r2.s.tlog tid = false ∧ r2.s.plog tid = false := by
+  obtain ⟨_, b, c⟩ := C11_ok_cleanup_complete pre pre2 [] (BI.nil.mpr h0) tid n r2 hok
+  exact ⟨C11_ok_no_orphans pre pre2 hv h0 tid n r2 hok, c, b, C11_ok_no_logs tid n r2 hp0 hok⟩
+
+example : Witness.s0.plog 1 = false := rfl
+
+/-! ### non-vacuity: the split witness (node 1 updated → staged id 9, node 2 added) -/
+
+theorem noOrphan_witness : NoOrphan Witness.s0 := by
+  intro b hb
+  have hb1 : b = 1 := by
+    simp only [Witness.s0, State.setReg, State.setBlob] at hb
+    split at hb
+    · assumption
+    · cases hb
+  subst hb1
+  exact ⟨1, { lid := 1, idA := 1, version := 1 }, by simp [Witness.s0, State.setReg, State.setBlob], rfl⟩
+
+theorem pre2_witness : Pre2 Witness.s0 Witness.wSplit [(1, 9)] := by
+  have hreg : ∀ i h, Witness.s0.reg i = some h → i = 1 := by
+    intro i h e
+    simp only [Witness.s0, State.setReg, State.setBlob] at e
+    split at e
+    · rename_i hi; exact hi
+    · cases e
+  refine ⟨by decide, ?_, by decide, ?_, ?_, ?_, ?_⟩
+  · intro i _ hm; simp [WS.removed, Witness.wSplit] at hm
+  · intro i hm; simp [WS.removed, Witness.wSplit] at hm
+  · intro i j h h' e e' hne; exact absurd ((hreg i h e).trans (hreg j h' e').symm) hne
+  · intro i h _ hm; simp [WS.obsoleteValues, Witness.wSplit] at hm
+  · intro p _ hm; simp [WS.obsoleteValues, Witness.wSplit] at hm
+
+/-- the same theorem with the run written out (no pair equation to check on a concrete run) -/
+theorem C11_ok_no_orphans_run {s0 : State} {w : WS} {fresh0 : List (UUID × UUID)}
+    (pre : Pre s0 w fresh0) (pre2 : Pre2 s0 w fresh0) (hv : w.values = []) (h0 : NoOrphan s0) (tid : Tid) (n : Nat)
+    (hok : (commit w n { s := s0, tid := tid, fault := none, fresh := fresh0 }).1 = .ok) :
+    NoOrphan (commit w n { s := s0, tid := tid, fault := none, fresh := fresh0 }).2.s :=
+  C11_ok_no_orphans pre pre2 hv h0 tid n _ (Prod.ext hok rfl)
+
+theorem witness_commit_ok :
+    (commit Witness.wSplit 30 { s := Witness.s0, tid := 1, fault := none, fresh := [(1, 9)] }).1 = .ok := by
+  decide +kernel
+
+/-- all hypotheses of `C11_ok_no_orphans` hold of the witness, its commit returns ok, and the run is not trivial:
+the staged blob 9 and the added node's blob 2 are in the store, the old blob 1 is gone -/
+theorem C11_ok_no_orphans_witness :
+    NoOrphan (commit Witness.wSplit 30 { s := Witness.s0, tid := 1, fault := none, fresh := [(1, 9)] }).2.s :=
+  C11_ok_no_orphans_run Witness.pre_wSplit pre2_witness (by decide) noOrphan_witness 1 30 witness_commit_ok
+
+theorem C11_ok_no_orphans_witness_nontrivial :
+    let r := commit Witness.wSplit 30 { s := Witness.s0, tid := 1, fault := none, fresh := [(1, 9)] }
+    r.2.s.blob 9 = true ∧ r.2.s.blob 2 = true ∧ r.2.s.blob 1 = false ∧ (r.2.s.reg 1).map (·.active) = some 9 := by
+  refine ⟨?_, ?_, ?_, ?_⟩ <;> decide +kernel
+
+/-- second witness: the transaction removes node 1 (`wRem`): premises hold, the commit returns ok, and the theorem
+gives: no orphan blob, node 1 unregistered -/
+theorem pre_wRem : Pre Witness.s0 Witness.wRem [] ∧ Pre2 Witness.s0 Witness.wRem [] := by
+  have hreg : ∀ i h, Witness.s0.reg i = some h → i = 1 ∧ h = { lid := 1, idA := 1, version := 1 } := by
+    intro i h e
+    simp only [Witness.s0, State.setReg, State.setBlob] at e
+    split at e
+    · rename_i hi; cases e; exact ⟨hi, rfl⟩
+    · cases e
+  refine ⟨⟨?_, ?_, ?_, ?_, ?_, ?_, ?_, ?_⟩, ⟨by decide, ?_, ?_, by decide, ?_, ?_, ?_⟩⟩
+  · intro i h e; obtain ⟨rfl, rfl⟩ := hreg i h e; rfl
+  · intro i hi; simp [WS.newIds, WS.rootIds, WS.addedIds, Witness.wRem] at hi
+  · intro i h _ hm; simp [WS.newIds, WS.rootIds, WS.addedIds, Witness.wRem] at hm
+  · intro i h _ p hp; cases hp
+  · intro i j h h' e e' hne; obtain ⟨rfl, rfl⟩ := hreg i h e; exact absurd rfl hne
+  · intro i h e hne; obtain ⟨rfl, rfl⟩ := hreg i h e; exact absurd rfl hne
+  · intro p hp; cases hp
+  · intro i h _ hm; simp [WS.values, Witness.wRem] at hm
+  · intro i hm; simp [WS.updated, Witness.wRem] at hm
+  · intro i hm; simp [WS.updated, Witness.wRem] at hm
+  · intro i j h h' e e' hne; exact absurd ((hreg i h e).1.trans (hreg j h' e').1.symm) hne
+  · intro i h _ hm; simp [WS.obsoleteValues, Witness.wRem] at hm
+  · intro p hp; cases hp
+
+theorem C11_ok_cleanup_complete_run {s0 : State} {w : WS} {fresh0 : List (UUID × UUID)}
+    (pre : Pre s0 w fresh0) (pre2 : Pre2 s0 w fresh0) (X0 : List UUID) (h0 : BI X0 s0) (tid : Tid) (n : Nat)
+    (hok : (commit w n { s := s0, tid := tid, fault := none, fresh := fresh0 }).1 = .ok) :
+    BI (X0 ++ w.values) (commit w n { s := s0, tid := tid, fault := none, fresh := fresh0 }).2.s ∧
+      (∀ b ∈ w.obsoleteValues, (commit w n { s := s0, tid := tid, fault := none, fresh := fresh0 }).2.s.blob b = false) ∧
+      (w.hasTracked = true → ∀ i ∈ w.removed.map (·.1),
+        (commit w n { s := s0, tid := tid, fault := none, fresh := fresh0 }).2.s.reg i = none) :=
+  C11_ok_cleanup_complete pre pre2 X0 h0 tid n _ (Prod.ext hok rfl)
+
+theorem witness_rem_commit_ok :
+    (commit Witness.wRem 30 { s := Witness.s0, tid := 1, fault := none, fresh := [] }).1 = .ok := by
+  decide +kernel
+
+theorem C11_ok_removed_witness :
+    NoOrphan (commit Witness.wRem 30 { s := Witness.s0, tid := 1, fault := none, fresh := [] }).2.s ∧
+      (commit Witness.wRem 30 { s := Witness.s0, tid := 1, fault := none, fresh := [] }).2.s.reg 1 = none := by
+  have h := C11_ok_cleanup_complete_run pre_wRem.1 pre_wRem.2 [] (BI.nil.mpr noOrphan_witness) 1 30 witness_rem_commit_ok
+  exact ⟨BI.nil.mp (h.1.mono (fun b hb => by simp [WS.values, Witness.wRem] at hb)), h.2.2 (by decide) 1 (by decide)⟩
+
+/-- **The fault-freeness hypothesis is needed.** When the cleanup's `blob.Remove` fails (fail-before fault on its
+first call) `Commit` still returns ok — `cleanup` only logs the error and nothing retries it — and the updated node's
+OLD blob 1 stays in the store although node 1's handle now points at blob 9 and node 2's at blob 2: blob 1 is the
+active blob of no handle (checked for every logical id below 16; the witness uses ids 1, 2 and 9 only). -/
+theorem C11_cleanup_fault_leaves_orphan :
+    let r := commit Witness.wSplit 30 { s := Witness.s0, tid := 1, fault := some ⟨.blobRemove, 1, .failBefore⟩, fresh := [(1, 9)] }
+    r.1 = .ok ∧ r.2.s.blob 1 = true ∧ (r.2.s.reg 1).map (·.active) = some 9 ∧ (r.2.s.reg 2).map (·.active) = some 2 ∧
+      (List.range 16).all (fun lid => (r.2.s.reg lid).map (·.active) != some 1) = true := by
   refine ⟨?_, ?_, ?_, ?_, ?_⟩ <;> decide +kernel
 
 end Sop.C11
